@@ -35,6 +35,10 @@ def corpus():
         case(1000000.0, 3600 * S, 60 * S, 1800 * S + 40 * S, 300 * S, [], 2),       # peak in the second half of a tick
         case(23499.0, 600 * S, S, 300 * S, 75 * S, [1.0, 1.0], 2),
         "gauss %s %d %d %d 0 - 0 3" % (fbits(100.0), 60 * S, S, 30 * S),
+        case(100000.0, 3600 * S, 60 * S, 1800 * S, 600 * S, [2.0], 2),               # a single weight is its own mean
+        case(100000.0, 3600 * S, 60 * S, 1800 * S, 600 * S, [0.5], 1),
+        case(100000.0, 168 * 3600 * S, 3600 * S, 84 * 3600 * S, 12 * 3600 * S, [], 2),   # weekly window (does not divide the zero-time/epoch distance)
+        case(50000.0, 7 * 3600 * S, 600 * S, 3 * 3600 * S, 3600 * S, [1.0, 3.0], 2),
     ]
 
 
@@ -42,11 +46,12 @@ def generate(rng, tier):
     n = {"quick": 40, "thorough": 900, "search": 300}[tier]
     out = []
     for _ in range(n):
-        rep = rng.choice([60 * S, 600 * S, 3600 * S, 86400 * S])
+        # windows that divide the distance between Go's zero time and the Unix epoch, and windows that do not (7 h, 36 h, a week, 11 min)
+        rep = rng.choice([60 * S, 600 * S, 3600 * S, 86400 * S, 7 * 3600 * S, 36 * 3600 * S, 168 * 3600 * S, 660 * S])
         freq = rng.choice([f for f in (S, 10 * S, 60 * S, 600 * S) if rep % f == 0 and rep // f >= 6 and rep // f <= 3600])
         peak = rng.choice([0, rep // 2, rep // 3, rng.randint(0, rep - 1), (rng.randint(0, rep // freq - 1)) * freq + freq // 2 + rng.randint(1, max(1, freq // 2 - 1))])
         sd = rng.choice([freq, 2 * freq, 5 * freq, rep // 8, rep // 3, rep])
-        k = rng.choice([0, 0, 2, 3, 4, 7])
+        k = rng.choice([0, 0, 1, 1, 2, 3, 4, 7])
         ws = [rng.choice([1.0, 2.0, 0.5, 3.0, float(i + 1)]) for i in range(k)]
         windows = rng.choice([1, 2, 3]) if not ws else len(ws) + rng.choice([0, 1])
         if (rep // freq) * windows > 9000:
